@@ -520,6 +520,41 @@ Inductive kcall :=
 (* answer of the kernel: rc, errno when rc < 0, and the data it wrote *)
 Record kres := KR { k_rc : Z; k_errno : err; k_set : bset; k_mode : Z; k_list : list Z }.
 
+(* /proc/<tid>/stat as hwloc reads it: at most 1023 bytes up to the first NUL; the task name (field 2, between
+   parentheses) may itself contain parentheses and spaces, so the LAST ')' ends it (proc(5)); then ") " is skipped,
+   36 more fields are skipped and field 39 (processor) is read with %d.  None = the function returns ENOSYS. *)
+Fixpoint upto_nul (s : list N) : list N := match s with [] => [] | c :: r => if c =? 0 then [] else c :: upto_nul r end.
+Fixpoint after_last_rparen (s : list N) (best : option (list N)) : option (list N) :=
+  match s with [] => best | c :: r => after_last_rparen r (if c =? 41 then Some r else best) end.
+Fixpoint after_space (s : list N) : option (list N) :=
+  match s with [] => None | c :: r => if c =? 32 then Some r else after_space r end.
+Fixpoint skip_fields (n : nat) (s : list N) : option (list N) :=
+  match n with O => Some s | S n' => match after_space s with None => None | Some r => skip_fields n' r end end.
+Definition c_isspace (c : N) : bool := (c =? 32) || ((9 <=? c) && (c <=? 13)).
+Fixpoint skip_ws (s : list N) : list N := match s with c :: r => if c_isspace c then skip_ws r else s | [] => [] end.
+Fixpoint read_digits (s : list N) (acc : N) (any : bool) : option N :=
+  match s with
+  | c :: r => if (48 <=? c) && (c <=? 57) then read_digits r (10 * acc + (c - 48)) true else if any then Some acc else None
+  | [] => if any then Some acc else None
+  end.
+Definition scan_int (s : list N) : option Z :=          (* sscanf(s, "%d ", &i) == 1 *)
+  match skip_ws s with
+  | 45 :: r => match read_digits r 0 false with Some n => Some (- Z.of_N n)%Z | None => None end
+  | 43 :: r => match read_digits r 0 false with Some n => Some (Z.of_N n) | None => None end
+  | r => match read_digits r 0 false with Some n => Some (Z.of_N n) | None => None end
+  end.
+Definition parse_stat (content : list N) : option Z :=
+  let buf := upto_nul (firstn 1023 content) in
+  match buf with [] => None | _ =>     (* read() returned <= 0 *)
+  match after_last_rparen buf None with
+  | None => None
+  | Some r =>                          (* r starts right after the last ')'; "tmp += 2" skips one more byte *)
+    match skip_fields 36 (tl r) with
+    | None => None
+    | Some f => scan_int f
+    end
+  end end.
+
 Definition zeqb_list (a b : list Z) : bool :=
   (length a =? length b)%nat && forallb (fun p => (fst p =? snd p)%Z) (combine a b).
 
@@ -569,10 +604,15 @@ Section Linux.
     if (k_rc r <? 0)%Z then (hfail (k_errno r), w1)
     else (HR 0 None (bs_inter (k_set r) (bs_range 0 (cpu_last + 1))) 0, w1).
 
-  (* hwloc_linux_get_tid_last_cpu_location *)
+  (* hwloc_linux_get_tid_last_cpu_location: tid 0 is replaced by gettid() (the caller is task 1 of the
+     scripted kernel); the kernel answers K_lastcpu with the bytes of /proc/<tid>/stat in k_list *)
   Definition get_tid_last (tid : Z) (w : lw) : hres * lw :=
-    let (r, w1) := kc (K_lastcpu tid) w in
-    if (k_rc r <? 0)%Z then (hfail ENOSYS, w1) else (HR 0 None (k_set r) 0, w1).
+    let (r, w1) := kc (K_lastcpu (if (tid =? 0)%Z then 1%Z else tid)) w in
+    if (k_rc r <? 0)%Z then (hfail ENOSYS, w1)
+    else match parse_stat (map Z.to_N (k_list r)) with
+         | Some i => (HR 0 None (bs_single (Z.to_N i)) 0, w1)
+         | None => (hfail ENOSYS, w1)
+         end.
 
   (* hwloc_linux_foreach_proc_tid *)
   Section Foreach.
